@@ -90,6 +90,54 @@ namespace vh
             o.ints("tq", tq).ints("nq", nq).ints("ez", ez).ints("cls", cls);
             out += o.done() + "\n";
         }
+        // one eroder object whose diffusivity is changed through its setters between steps
+        if (c.has("hist"))
+        {
+            double dt = c["dt"][0].as_double() / c["dt"][1].as_double();
+            std::unique_ptr<eroder_t> er;
+            for (auto& ep : c["hist"].a)
+            {
+                const auto& en = *ep;
+                xt::xtensor<double, 2> kt;
+                if (en.has("Ka"))
+                {
+                    auto k = grid_array<grid_t, double>(*g, 0.0);
+                    for (size_t i = 0; i < n; ++i)
+                        k.flat(i) = en["Ka"][i].as_double();
+                    kt = k;
+                }
+                if (!er)
+                {
+                    if (en.has("Ka"))
+                        er = std::make_unique<eroder_t>(*g, kt);
+                    else
+                        er = std::make_unique<eroder_t>(*g, en["Ks"].as_double());
+                }
+                else if (en.has("Ka"))
+                    er->set_k_coef(kt);
+                else
+                    er->set_k_coef(en["Ks"].as_double());
+                std::vector<double> hf;
+                half_sink = &hf;
+                const auto& eh = er->erode(h, dt);
+                half_sink = nullptr;
+                vj::obj o;
+                o.str("e", "Adi").raw("d", vj::dump(c["grid"]));
+                o.raw("K", en.has("Ka") ? vj::dump(en["Ka"]) : "[]").num("Ks", en.has("Ks") ? en["Ks"].as_int() : 0);
+                o.raw("dt", vj::dump(c["dt"])).raw("h", vj::dump(c["h"])).num("S", S);
+                std::vector<long long> tq(n), nq(n), ez(n), cls(n);
+                for (size_t i = 0; i < n; ++i)
+                {
+                    tq[i] = hf.size() == n ? qfix(hf[i], S) : 0;
+                    nq[i] = qfix(h.flat(i) - eh.flat(i), S);
+                    ez[i] = same_bits(eh.flat(i), 0.0) ? 1 : 0;
+                    cls[i] = dclass(eh.flat(i));
+                }
+                o.num("hashalf", hf.size() == n ? 1 : 0);
+                o.ints("tq", tq).ints("nq", nq).ints("ez", ez).ints("cls", cls);
+                out += o.done() + "\n";
+            }
+        }
         // scalar diffusivity == uniform array (as enclosures: the two code paths round differently)
         if (!c.has("Ka"))
         {
